@@ -171,7 +171,7 @@ def run(p, led, tier):
     drive("regenerate", [(s_, e_, None) for s_ in (quick_states[:1]) for e_ in energies])
     drive("convert", [(quick_states[0], None, None)])
 
-    # ---------------- transfer_to: own store debited by exactly the amount, peer credited through regenerate(amount) only
+    # ---------------- transfer_to: both stores symbolic; a transfer never creates energy
     tr = p.find_method(store, "transfer_to")
     for energy in energies:
         problems = {r: [] for r in ("C04-R1", "C04-R2", "C04-R3", "C04-R4", "C04-R5")}
@@ -179,39 +179,57 @@ def run(p, led, tier):
 
         def go_t(o):
             it, st, s = mk(o, "NORMAL")
-            peer = Obj(store, {}, tag="peer")
-            calls = []
-            it.stubs["ATP_Store.regenerate"] = lambda interp, args, kwargs: calls.append((args[0].tag, args[1], nm(args[2]) if len(args) > 2 else nm(kwargs.get("energy_type", "ATP")))) or None
+            # the peer: a second symbolic store sharing the interpreter (its own symbols and invariant)
+            peer = it.instantiate(store, [], dict(budget=0, gtp_budget=0, nadh_reserve=0, regeneration_rate=0.0, max_debt=0, on_state_change=None, silent=True))
+            ps = {k: Lin.sym("peer_" + k) for k in SYMS}
+            peer.fields.update(atp=ps["atp0"], gtp=ps["gtp0"], nadh=ps["nadh0"], max_atp=ps["max_atp"], max_gtp=ps["max_gtp"], max_nadh=ps["max_nadh"], _debt=ps["debt0"],
+                               max_debt=ps["max_debt"], _total_consumed=ps["consumed0"], _total_regenerated=ps["regen0"], _state=it.enum_member(MS, "NORMAL"))
+            for b_ in BAL:
+                it.assume(ps[b_ + "0"])
+                it.assume(ps["max_" + b_].add(ps[b_ + "0"], -1))
+            it.assume(ps["debt0"])
+            it.assume(ps["max_debt"].add(ps["debt0"], -1))
             amount = Lin.sym("amount")
             it.assume(amount)
-            w0 = worth(st.fields)
+            w0, pw0 = worth(st.fields), worth(peer.fields)
             local = {r: [] for r in problems}
             try:
                 ret = it.call_fi(tr, [st, peer, amount, it.enum_member(ET, energy)], {})
             except PyRaise as e:
                 local["C04-R5"].append(f"raises {e.exc!r}")
                 return local
-            check_exit(it, st, s, w0, "transfer", ret, None, amount, energy, local)
-            dw = worth(st.fields).add(w0, -1)
-            if ret is True:
-                if dw != amount.scale(-1):
-                    local["C04-R4"].append(f"successful transfer debits the sender by {dw!r}, not by the amount")
-                if len(calls) != 1 or calls[0][0] != "peer" or L(calls[0][1]) != amount or calls[0][2] != energy:
-                    local["C04-R4"].append(f"peer credited by {calls!r} instead of one regenerate(amount, {energy}) — energy is created or lost")
-            else:
-                if dw != Lin() or calls:
-                    local["C04-R4"].append(f"failed transfer changed the sender (Δ {dw!r}) or credited the peer {calls!r}")
+            for who, obj_, ss in (("sender", st, s), ("receiver", peer, ps)):
+                f = obj_.fields
+                for b_ in BAL:
+                    v = L(f[b_])
+                    if v is None or not entails(it.facts, v):
+                        local["C04-R1"].append(f"{who}: {b_} = {f[b_]!r} is not provably ≥ 0")
+                    if who == "receiver" and v is not None and not entails(it.facts, L(f["max_" + b_]).add(v, -1)):
+                        local["C04-R3"].append(f"receiver: {b_} = {f[b_]!r} can exceed its capacity")
+                d = L(f["_debt"])
+                if d is None or not entails(it.facts, d) or not entails(it.facts, L(f["max_debt"]).add(d, -1)):
+                    local["C04-R2"].append(f"{who}: debt = {f['_debt']!r} not provably within [0, max_debt]")
+            dself = worth(st.fields).add(w0, -1)
+            dpeer = worth(peer.fields).add(pw0, -1)
+            total = dself.add(dpeer)
+            if not entails(it.facts, total.scale(-1)):
+                local["C04-R4"].append(f"the transfer can create energy: Δ(sender) + Δ(receiver) = {total!r} is not provably ≤ 0")
+            if ret is False and (dself != Lin() or dpeer != Lin()):
+                local["C04-R4"].append(f"a failed transfer changed the stores (Δ sender {dself!r}, Δ receiver {dpeer!r})")
+            if ret is True and not entails(it.facts, dself.scale(-1)):
+                local["C04-R4"].append(f"a transfer increases the sender's net worth (Δ = {dself!r})")
             return local
-        for _, local in explore(go_t, max_paths=5000):
+        for _, local in explore(go_t, max_paths=20000):
             npaths[0] += 1
             for r, lst in local.items():
                 problems[r].extend(lst)
         for r in problems:
             key = f"ATP_Store.transfer_to ▸ currency={energy} ▸ {r}"
             if problems[r]:
-                led.fail(r, key, where(tr, tr.node), f"{len(problems[r])} of {npaths[0]} path(s): {sorted(set(problems[r]))[0]}")
+                led.fail(r, key, where(tr, tr.node), f"{len(problems[r])} of {npaths[0]} path(s): {sorted(set(problems[r]))[0]}",
+                         witness="transfer ATP into a store that is in debt: the debt is paid *and* the same energy is handed back to the sender" if r == "C04-R4" else None)
             else:
-                led.ok(r, key, where(tr, tr.node), f"{npaths[0]} symbolic path(s)")
+                led.ok(r, key, where(tr, tr.node), f"{npaths[0]} symbolic path(s) over two symbolic stores")
 
     # ---------------- R6 constructor establishes the invariant
     def go_c(o):
